@@ -195,6 +195,26 @@ def _bspline_job(k):
     for nm, v in (("spar_thickness", 0.007), ("skin_thickness", 0.013)):
         if not (float(np.max(np.abs(o3[nm] - v))) <= 1e-12 * v):
             bad.append("bspline:%s:ncp%d" % (nm, ncp))
+    # a B-spline distribution is parametrised by the normalised span of ITS OWN surface: the same surface translated along y (a
+    # half wing attached off the symmetry plane, an outboard section of a multi-section wing) gets the same distribution from the
+    # same, unequal control points
+    if ncp >= 2:
+        cps = rng.uniform(0.5, 1.5, ncp)
+        shifted = mesh.copy()
+        shifted[:, :, 1] -= float(rng.uniform(0.5, 3.0))
+        res = []
+        for mm in (mesh, shifted):
+            sa = tube_surface(mm, 0.35, sym=sym, t_over_c_cp=0.12 * cps, twist_cp=2.0 * cps)
+            pa = run_comp(Geometry(surface=sa), {}, None, keep=True)[1]
+            sb = tube_surface(mm, 0.35, sym=sym, thickness_cp=0.02 * cps, radius_cp=0.3 * cps)
+            ob = run_comp(TubeGroup(surface=sb), {}, ["thickness", "radius"])
+            sc = tube_surface(mm, 0.35, sym=sym, fem_model_type="wingbox", data_x_upper=ux, data_y_upper=uy, data_x_lower=lx, data_y_lower=ly, spar_thickness_cp=0.007 * cps, skin_thickness_cp=0.013 * cps,
+                              original_wingbox_airfoil_t_over_c=0.12)
+            oc = run_comp(WingboxGroup(surface=sc), {"mesh": mm, "t_over_c": np.full(mm.shape[1] - 1, 0.12)}, ["spar_thickness", "skin_thickness"])
+            res.append({"t_over_c": np.array(pa.get_val("t_over_c")), "twist": np.array(pa.get_val("twist")), "thickness": ob["thickness"], "radius": ob["radius"], "spar_thickness": oc["spar_thickness"], "skin_thickness": oc["skin_thickness"]})
+        for nm in res[0]:
+            if not (float(np.max(np.abs(res[0][nm] - res[1][nm]))) <= 1e-12 * float(np.max(np.abs(res[0][nm])))):
+                bad.append("bspline:depends_on_y_position:%s" % nm)
     return {"k": k, "bad": bad, "case": {"ncp": ncp, "sym": sym, "ny": int(mesh.shape[1])}}
 
 
